@@ -2,7 +2,7 @@
 Helper lemmas for C13: the branch-free tag comparison of `HmacSha256::verify` is equality, and the
 two spans `decode_signed` cuts are `take`/`drop` at `size - 32`.  Core Lean only.
 -/
-import EphVerif.Lemmas.C16Decode
+import EphVerif.Lemmas.C16Total
 
 namespace EphVerif.Message
 open EphVerif.Gen.C15
